@@ -67,6 +67,9 @@ void qsort(void *vbase, size_t nmemb, size_t size,
 			if (i <= j) {
 				swap(i, j, size);
 				i += size;
+				if (j == base) {
+					break;
+				}
 				j -= size;
 			}
 		}
